@@ -4,6 +4,7 @@ import re
 
 import kanirun
 from kanirun import Job
+import codecx
 
 VERIF = kanirun.VERIF
 COMMON_TRUST = [
@@ -77,6 +78,12 @@ class Prop:
         kjobs = [j for j in jobs if isinstance(j, Job)]
         other = [j for j in jobs if not isinstance(j, Job)]
         results = []
+        pool, futs = None, []
+        if other:
+            # SMT-engine jobs are independent processes' worth of work (python + z3/cvc5): run them next to the Kani jobs
+            from concurrent.futures import ThreadPoolExecutor
+            pool = ThreadPoolExecutor(max_workers=4)
+            futs = [pool.submit(j.run, logdir) for j in other]
         if kjobs:
             raw = kanirun.run_jobs(kjobs, logdir)
             summ = [summarise_kani(r) for r in raw]
@@ -102,8 +109,10 @@ class Prop:
                 x["detail"] = detail + "; " + x["detail"]
                 reproduced = reproduced or bool(ok)
             results.extend(summ)
-        for j in other:
-            results.extend(j.run(logdir))
+        for f in futs:
+            results.extend(f.result())
+        if pool:
+            pool.shutdown()
         return {"results": results}
 
 
@@ -111,6 +120,14 @@ def replay_other(pid, art):
     if pid in ("C13", "C18"):
         import wmm
         return wmm.replay(pid, art)
+    if art.endswith(".json") and os.path.exists(art):
+        try:
+            import json
+            if "side" in json.load(open(art)):
+                import codecx
+                return codecx.replay(pid, art)
+        except ValueError:
+            pass
     import smtengine
     return smtengine.replay(pid, art)
 
@@ -502,10 +519,10 @@ reg(Prop("C04", "pending backpatches invisible",
          outside=IOV_OUTSIDE + ["more than one placeholder in flight inside this family (the four-placeholder / out-of-order-fill skeletons did not finish; out-of-order fills are exercised at the SortedDeque level by C16 and through the Encoder by C07/C09)", IOV_NOT_DECIDED],
          assumptions=IOV_ASSUME))
 reg(Prop("C05", "exposed slices point into live memory",
-         quick=[iov_job("k13_anchored_slice_outlives_arena"), iov_job("k3_anchored_push_flush"), iov_job("k7q_clone_survives_drain_and_refill"), iov_job("k12_clear_releases_chunks")],
+         quick=[iov_job("k13_anchored_slice_outlives_arena"), iov_job("k3_anchored_push_flush"), iov_job("k7q_clone_survives_drain_and_refill"), iov_job("k12_clear_releases_chunks"), codecx.Anchors("quick")],
          thorough=[iov_job(n, 3000, 24) for n in ("k13_anchored_slice_outlives_arena", "k3_anchored_push_flush", "k7q_clone_survives_drain_and_refill", "k7b_clone_then_mutate_clone",
-                                                    "k12_clear_releases_chunks", "k11q_drop_restores_counters", "k1_patch_merge_consume", "k6q_take_moves_pending_placeholder")],
-         bounds_quick="CBMC's pointer checks (deallocated / dead object, out-of-bounds, invalid pointer) on every dereference, with every exposed byte read at a symbolic position after the operations of 4 skeletons: AnchoredSlice parts outliving their arena, anchored push + cache flush, clone sharing a chunk with a drained-and-refilled original, clear + flush + reuse + real drop",
+                                                    "k12_clear_releases_chunks", "k11q_drop_restores_counters", "k1_patch_merge_consume", "k6q_take_moves_pending_placeholder")] + [codecx.Anchors("thorough")],
+         bounds_quick="Engine X: on every path of Encoder::encode_anchored / Decoder::decode_anchored (every byte string <= 4, every cut, error paths included, a 300-byte piece) bytes pushed by reference travel with their Anchor; CBMC's pointer checks (deallocated / dead object, out-of-bounds, invalid pointer) on every dereference, with every exposed byte read at a symbolic position after the operations of 4 skeletons: AnchoredSlice parts outliving their arena, anchored push + cache flush, clone sharing a chunk with a drained-and-refilled original, clear + flush + reuse + real drop",
          bounds_thorough="8 skeletons",
          outside=IOV_OUTSIDE + ["StreamChunker chunks are covered by the C08 step harness's own pointer checks; Encoder/Decoder anchored input by the C07/C09 harnesses when those are run; StreamReader records by C06", IOV_NOT_DECIDED],
          assumptions=IOV_ASSUME))
@@ -540,13 +557,54 @@ C07_JOBS = [
     c07_job("prod::prod_header_kernel_one_byte", "EncoderState::encode_header for EVERY first-chunk size 0..=252"),
     c07_job("fss::fss_first_occurrence", "hcobs::find_stuff_sequence on EVERY byte string of length <= 40: index of the first FE FD, or None"),
 ]
-p07 = Prop("C07", "HCOBS wire format (constants, header arithmetic, stuff-sequence search)",
-           quick=C07_JOBS, thorough=C07_JOBS,
-           bounds_quick="production constants pinned; header arithmetic for all 64009 chunk sizes; stuff-sequence search for all byte strings of length <= 40",
-           bounds_thorough="same as quick",
-           outside=["the Encoder's greedy chunking state machine and the Decoder's acceptance state machine as wholes: differential harnesses (Encoder == reference encoder, Decoder == reference decoder, 3-4 symbolic bytes, tiny limits, 32-byte arena chunks, concrete piece boundaries and input methods) did not get through symbolic execution in 18-40 minutes and then exceeded 14 GB; they are kept in kani/hcobs (enc.rs, dec.rs) but are not run",
-                    "decoder header acceptance at production limits (harnesses prod_decoder_* ran out of 12 GB because Decoder::finish drops an OwningIovec)",
-                    "therefore: a change confined to consume_once / encode_borrow / encode_copy / the DecoderState transitions is NOT detected by this check"],
-           assumptions=["hook H4 (hcobs::verif_hooks::encode_header) exposes the private header kernel; hook H2 shrinks arena chunks to 8 bytes; the limit hook H1 is OFF in these builds"])
-p07.technique = "bounded model checking (Kani/CBMC/SAT) of the header kernel, the constants and find_stuff_sequence"
+X_TRUST = ["MIR -> path-enumerating interpreter lib/mirx.py (concrete control flow and lengths, symbolic bytes, z3 feasibility pruning) and the reference codec lib/codecx.py written from the format description in the property text",
+           "OwningIovec is abstracted as an append/backfill event log (its own behaviour is the subject of C03/C04/C05); hcobs::find_stuff_sequence is replaced by its contract (first FE FD or None), which Kani job fss::fss_first_occurrence decides for all strings <= 40 bytes",
+           "every mismatch query is asked to z3 4.8.12 and cvc5 1.0 and both must agree; a coverage query (the enumerated path conditions are exhaustive) accompanies every mismatch query"]
+X_ASSUME = ["slices handed to the codec are modelled as value lists: aliasing between input pieces is not modelled (the codec never writes through its inputs)",
+            "unwinding edges are not followed: a panic on any feasible path is itself reported as a violation"]
+X_OUTSIDE = ["inputs longer than the stated lengths other than the windowed boundary inputs; more than three pieces per stream",
+             "the concrete OwningIovec behind the event log (slice merging, arena copies, consumers) - see C03/C04/C05; Encoder::read_n / encode_read / decode_read wrappers (C17 decides ByteArena::read_n)"]
+
+p07 = Prop("C07", "HCOBS wire format: Encoder == canonical encoding, Decoder accepts exactly the format",
+           quick=[codecx.EncoderVsReference("quick"), codecx.DecoderVsReference("quick"), codecx.ApiProduction("quick")] + C07_JOBS,
+           thorough=[codecx.EncoderVsReference("thorough"), codecx.DecoderVsReference("thorough"), codecx.ApiProduction("thorough")] + C07_JOBS,
+           bounds_quick="Engine X: EncoderState == reference for every byte string of length <= 6, every 2-piece cut (3 pieces for L 4-5), copy/borrow inputs, limits (1,1),(1,2),(2,3); DecoderState == reference for every byte string <= 5 at (2,3),(1,2) and production limits; public Encoder/Decoder at production limits for every string <= 4 and windowed inputs crossing the 252 and 252+64008 boundaries. Engine K: production constants, header arithmetic for all 64009 chunk sizes, find_stuff_sequence for all strings <= 40 bytes",
+           bounds_thorough="Engine X lengths <= 8 (encoder, + limits (3,5), all four method pairs, 3 pieces for L 4-7) and <= 7 (decoder, + (1,1),(3,5)); more boundary windows and cuts; Engine K as quick",
+           outside=X_OUTSIDE, assumptions=X_ASSUME + ["hook H4 (hcobs::verif_hooks::encode_header) exposes the private header kernel to Kani; hook H2 shrinks arena chunks to 8 bytes there; the limit hook H1 is OFF in every build used by this check (Engine X passes tiny limits as the Parameters argument of the internal state machines and reads PROD_PARAMS from the MIR for the public API)"],
+           trusted=X_TRUST)
+p07.technique = "symbolic execution of the compiler's MIR for the encoder/decoder state machines with symbolic input bytes, differential SMT queries (z3 + cvc5) against a reference codec; bounded model checking (Kani/CBMC) of the header kernel, constants and find_stuff_sequence"
 reg(p07)
+
+C02_K = [C07_JOBS[3], C07_JOBS[1], C07_JOBS[0]]
+p02 = Prop("C02", "encoder output stuff-free, split-independent, bounded",
+           quick=[codecx.EncoderVsReference("quick"), codecx.ApiProduction("quick", pid="C02", name="c02::public_api_production_limits[mirx]"), smtengine.C02LengthLemma()] + C02_K,
+           thorough=[codecx.EncoderVsReference("thorough"), codecx.ApiProduction("thorough", pid="C02", name="c02::public_api_production_limits[mirx]"), smtengine.C02LengthLemma()] + C02_K,
+           bounds_quick="every encoder output path of Engine X (lengths <= 6, all cuts, copy/borrow, three tiny limit pairs; public API at production limits incl. boundary windows): no adjacent FE FD in the output, output identical to the single reference encoding whatever the cut and input method (split independence), length <= len + 1 + 2*ceil(len/64008) at production limits; SMT lemma: the canonical encoding's length bound for ALL lengths < 2^40; Kani: find_stuff_sequence, header digits < 0xFD, production constants",
+           bounds_thorough="lengths <= 8, all method pairs, (3,5) limits, more windows",
+           outside=X_OUTSIDE + ["the size bound for long inputs rests on: implementation == canonical encoding (decided up to the stated lengths and at the boundary windows) + the arithmetic lemma on the canonical encoding (all lengths)"],
+           assumptions=X_ASSUME, trusted=X_TRUST)
+p02.technique = p07.technique
+reg(p02)
+
+p01 = Prop("C01", "decode(encode(x)) == x",
+           quick=[codecx.RoundTrip("quick"), codecx.EncoderVsReference("quick"), codecx.DecoderVsReference("quick")],
+           thorough=[codecx.RoundTrip("thorough"), codecx.EncoderVsReference("thorough"), codecx.DecoderVsReference("thorough"), codecx.ApiProduction("thorough", pid="C01", name="c01::public_api_production_limits[mirx]")],
+           bounds_quick="the DecoderState MIR executed on every symbolic output of the EncoderState MIR: every byte string of length <= 5, encoder input cut at 0 / middle / end (copy+borrow), encoded stream cut at 0 / middle / end (borrow+copy), limits (2,3),(1,2) and production; plus both halves against the reference codec (C07 jobs)",
+           bounds_thorough="length <= 7, every encoder cut, every decoder cut, five limit pairs; public API at the production chunk boundaries against the reference",
+           outside=X_OUTSIDE + ["the encoded stream is handed to the decoder as a byte string: draining it through ConsumingIovec / Read (advance_slices) is not part of this check (consume() is covered by C03/C04)"],
+           assumptions=X_ASSUME, trusted=X_TRUST)
+p01.technique = "symbolic execution of the MIR of both state machines composed (decoder run on the encoder's symbolic output), SMT queries (z3 + cvc5)"
+reg(p01)
+
+p09 = Prop("C09", "incremental drain: bounded lag for the Encoder, none for the Decoder",
+           quick=[codecx.EncoderVsReference("quick"), codecx.DecoderVsReference("quick"), codecx.ApiProduction("quick", pid="C09", name="c09::public_api_production_limits[mirx]"),
+                  iov_job("k8q_consume_clamped_to_stable_prefix")],
+           thorough=[codecx.EncoderVsReference("thorough"), codecx.DecoderVsReference("thorough"), codecx.ApiProduction("thorough", pid="C09", name="c09::public_api_production_limits[mirx]"),
+                     iov_job("k8q_consume_clamped_to_stable_prefix", 3000, 24), iov_job("k8_overasking_consumers_with_pending", 3000, 24)],
+           bounds_quick="on every feasible encoder path of Engine X (lengths <= 6, all cuts; production limits with inputs longer than 252+64008): at most one placeholder pending at any time and at most max_chunk+2 bytes appended behind it (so everything older is consumable), every placeholder is backfilled by finish; decoder paths register no placeholder at all; Kani: ConsumingIovec::consume never crosses the earliest pending placeholder even when over-asked",
+           bounds_thorough="lengths <= 8; two consume skeletons",
+           outside=X_OUTSIDE + ["the drained bytes themselves: that what a consumer takes out of OwningIovec is a prefix of the final flatten() is C03/C04 (consume decided; ConsumingIovec::advance_slices and Read::read did NOT finish in Kani and are not decided), so a defect confined to advance_slices is not detected here",
+                                "arena-chunk granularity of the lag (one slice may stay pinned behind a placeholder that shares it)"],
+           assumptions=X_ASSUME + IOV_ASSUME, trusted=X_TRUST)
+p09.technique = p07.technique
+reg(p09)
